@@ -194,7 +194,7 @@ def assigned_names(st: ast.AST) -> Set[str]:
 def walk(cfg: CFG, start: int, env: Env, stop: Callable[[int], bool] = lambda n: False,
          atom_asts: Optional[Dict[str, ast.AST]] = None, skip_labels: Iterable[str] = ('exc',),
          loop_header_stop: Optional[int] = None, track_undecided: Optional[Set[int]] = None,
-         unknown: str = 'both') -> Set[int]:
+         unknown: str = 'both', loop_items_not_none: bool = False, lookups_not_none: bool = False) -> Set[int]:
     """Nodes reachable from `start` under `env`.  Stop nodes are included but not expanded.
     If an assignment on the way rebinds a name mentioned by an atom/term, that atom becomes unknown from there on."""
     atom_names: Dict[str, Set[str]] = {}
@@ -276,8 +276,17 @@ def walk(cfg: CFG, start: int, env: Env, stop: Callable[[int], bool] = lambda n:
                             newfacts = newfacts | {(tname, st.value.value)}
                         elif isinstance(st.value, (ast.Constant, ast.List, ast.Tuple, ast.Dict, ast.Set, ast.ListComp, ast.DictComp, ast.SetComp, ast.JoinedStr, ast.Compare, ast.BinOp)):
                             newfacts = newfacts | {(tname, 'notnone')}
+                        elif lookups_not_none and (isinstance(st.value, ast.Subscript) or isinstance(st.value, ast.Call)
+                                                   and not (isinstance(st.value.func, ast.Attribute) and st.value.func.attr in ('get', 'pop', 'setdefault'))
+                                                   and not any(isinstance(a, ast.Constant) and a.value is None for a in list(st.value.args) + [k.value for k in st.value.keywords])):
+                            # the caller's assumption: an element looked up in / computed from a collection of non-None items
+                            newfacts = newfacts | {(tname, 'notnone')}
         for b, l in cfg.succ[n]:
             if l in skip_labels: continue
+            if loop_items_not_none and nd.kind == 'for' and l == 'iter' and isinstance(nd.stmt.target, ast.Name):
+                # the caller's assumption: the collection iterated over holds no None (bags, nodes, labels)
+                work.append((b, used, newdead, newfacts | {(nd.stmt.target.id, 'notnone')}))
+                continue
             work.append((b, used, newdead, newfacts))
     return out
 
